@@ -7,7 +7,7 @@ EXPLANATION = ("For every corpus class a valid symbolic object is generated and 
                "any array element, any case): required field None, wrong fixed length, over padded/length-field limit, integer at or above its limit (symbolic, unbounded above), wrong case data. "
                "z3 decides that the generated serializer cannot return normally.")
 BOUNDS = {"quick": "every class of corpus/core (plus a VERIF_SEED-chosen sample of 80 pairs + all singles of the generated pair corpus) x every violation site reachable with strings of length 0/1 and arrays of 0/1 elements (fixed ones at their length +-1); over-limit integers: every v >= limit",
-          "thorough": "core corpus plus ALL structs of the generated pair corpus; string lengths and array counts {0,1,2}"}
+          "thorough": "core corpus (per class the richest of lens/counts <=1, counts<=2, lens&counts<=2 whose structure count stays <= 300) plus ALL structs of the generated pair corpus (lens/counts 0/1)"}
 OUTSIDE = "specifications not in the corpus; objects with two or more simultaneous violations; None for fields whose constructor already rejects None (arrays, strings feeding a length field)"
 ASSUMPTIONS = ["only the violation kinds listed in the property are in scope"]
 
@@ -43,13 +43,16 @@ NO_SITES = ("Named", "RangeReplyServerPacket", "TalkRequestClientPacket", "CaseW
 def jobs(tier):
     types, cls = corpus.classes()
     cfg = {"lens": [0, 1], "counts": [0, 1]} if tier == "quick" else {"lens": [0, 1, 2], "counts": [0, 1, 2]}
+    CANDS = [{"lens": [0, 1], "counts": [0, 1]}, {"lens": [0, 1], "counts": [0, 1, 2]}, {"lens": [0, 1, 2], "counts": [0, 1, 2]}]
     mult = max(cfg["counts"]) + 1
     js = []
     for c in cls:
         sites = count_sites(types, c["instrs"], mult)
         if sites == 0 or c["name"] in NO_SITES:
             continue
-        js.append(dict(name=f"refused[{c['name']}]", fn="refused", args=[corpus.closure(types, c["instrs"]), c, cfg, sites + 2], tree="core", collect_models=2,
+        ccfg = cfg if tier == "quick" else corpus.choose_cfg(types, c["instrs"], [{"lens": [0, 1], "counts": [0, 1]}, {"lens": [0, 1], "counts": [0, 1, 2]}, {"lens": [0, 1, 2], "counts": [0, 1, 2]}], 300)
+        sites = count_sites(types, c["instrs"], max(ccfg["counts"]) + 1)
+        js.append(dict(name=f"refused[{c['name']}]", fn="refused", args=[corpus.closure(types, c["instrs"]), c, ccfg, sites + 2], tree="core", collect_models=2,
                        may_be_empty=False, expect=["an object violating its declaration is refused (SerializationError / ValueError)"]))
     _, ptypes, pcls = corpus.pairs(tier, corpus.seed(), 80)
     for c in pcls:
@@ -57,6 +60,8 @@ def jobs(tier):
         if sites == 0:
             continue
         # generated pair structs: some offer no violation site -> may be empty; vacuity is guarded by the core corpus jobs
-        js.append(dict(name=f"refused[pairs:{c['name']}]", fn="refused", args=[corpus.closure(ptypes, c["instrs"]), c, cfg, sites + 2], tree="pairs", collect_models=1,
+        pcfg = {"lens": [0, 1], "counts": [0, 1]}
+        sites = count_sites(ptypes, c["instrs"], 2)
+        js.append(dict(name=f"refused[pairs:{c['name']}]", fn="refused", args=[corpus.closure(ptypes, c["instrs"]), c, pcfg, sites + 2], tree="pairs", collect_models=1,
                        may_be_empty=True))
     return js
